@@ -32,7 +32,9 @@ THEOREMS = [
     "C09.comb_raise_delivered", "C09.no_escape_projection", "C09.no_escape_catch_handler", "C09.no_escape_seq_factory",
     "C09.group_by_until_raise_paths", "C09.group_by_until_failure_path",
 ]
-RULE = ("inject: for every catalogued (operator, callback) an InjectedError raised at the k-th invocation (k = 0..4) of that callback, over "
+RULE = ("inject: for every catalogued (operator, callback) an exception (InjectedError, StopIteration, KeyError, a custom Exception subclass, and the "
+        "library's own SequenceContainsNoElementsError / DisposedException / WouldBlockException / ArgumentOutOfRangeException) raised at the k-th "
+        "invocation (k = 0..4) of that callback - the very exception object must reach the subscriber -, over "
         "Subjects (escape = exception out of subject.on_next), hot and cold TestScheduler observables (escape = exception out of the "
         "scheduler), generated timelines for main/second/inner sources; model: finite-table callbacks with raising entries over a Subject "
         "or hot observable for the operators modelled in Lean, comparing timed output and escapes. non-trivial = the injected/raising "
@@ -161,6 +163,36 @@ class _Watchdog(BaseException):
     pass
 
 
+EXC_KINDS = ["injected", "StopIteration", "KeyError", "Custom", "NoElements", "Disposed", "WouldBlock", "ArgumentOutOfRange"]
+
+
+class CustomError(Exception):
+    pass
+
+
+def make_exc(kind, name):
+    """the exception object a user callback raises: also classes the library itself raises / catches internally"""
+    from reactivex.internal import exceptions as X
+
+    if kind == "injected":
+        return InjectedError(name)
+    if kind == "StopIteration":
+        return StopIteration(name)
+    if kind == "KeyError":
+        return KeyError(name)
+    if kind == "Custom":
+        return CustomError(name)
+    if kind == "NoElements":
+        return X.SequenceContainsNoElementsError()
+    if kind == "Disposed":
+        return X.DisposedException()
+    if kind == "WouldBlock":
+        return X.WouldBlockException()
+    if kind == "ArgumentOutOfRange":
+        return X.ArgumentOutOfRangeException()
+    raise ValueError(kind)
+
+
 class Ctx:
     def __init__(self, case):
         from reactivex.testing import TestScheduler
@@ -174,6 +206,7 @@ class Ctx:
         self.subjects = []
         self.hots = []
         self.groups = []
+        self.last_err = None
 
     # ---- sources
     def source(self, key):
@@ -239,7 +272,8 @@ class Ctx:
                 st["fired"] = True
                 st["fired_at"] = int(self.sched.clock)
                 st["term_before"] = self.terminated
-                raise InjectedError(f"inj_{name}_{k}")
+                st["exc_obj"] = make_exc(self.case.get("exc", "injected"), f"inj_{name}_{k}")
+                raise st["exc_obj"]
             return f(*args)
         return g
 
@@ -262,6 +296,7 @@ class Ctx:
 
     def on_error(self, e):
         self.terminated = True
+        self.last_err = e
         self.out.append([int(self.sched.clock), ["E", err_name(e)]])
 
     def on_completed(self):
@@ -441,6 +476,7 @@ def gen_inject(rng, entry, cbname):
          "mode": rng.choice(["subject", "subject", "hot", "cold"]),
          "a": gen_timeline(rng, entry in NEEDS_ERROR_SOURCE or (cbname == "on_error"), force_complete=(cbname == "on_completed")),
          "b": gen_timeline(rng), "inner": inner}
+    c["exc"] = "injected" if rng.random() < 0.45 else rng.choice(EXC_KINDS[1:])
     if entry == "generate_with_relative_time":
         c["delay"] = rng.choice([0, 0, 5, 10])
     if entry in GROUP_ENTRIES:
@@ -495,7 +531,8 @@ def _run_inject(case):
             open_subs.append([int(s.subscribe), None if s.unsubscribe >= INF else int(s.unsubscribe)])
     st = ctx.st
     return {"out": ctx.out, "escaped": ctx.escaped, "fired": st["fired"], "fired_at": st["fired_at"], "term_before": st["term_before"],
-            "calls_after_fire": st["after"], "calls": st["calls"], "subs": open_subs, "groups": ctx.groups}
+            "calls_after_fire": st["after"], "calls": st["calls"], "subs": open_subs, "groups": ctx.groups,
+            "same_obj": ctx.last_err is not None and ctx.last_err is st.get("exc_obj")}
 
 
 def _with_alarm(fn, arg, secs):
@@ -545,9 +582,9 @@ def oracle(case, out):
     if case["kind"] == "model":
         return None
     if out["fired"] and not out["term_before"]:
-        name = f"inj_{case['cb']}_{case['k']}"
-        if not seq or seq[-1] != ["E", name]:
-            return f"injected {name} @{out['fired_at']} did not reach the subscriber as on_error: subscriber saw {out['out'][-3:]}"
+        name = f"inj_{case['cb']}_{case['k']}" + (f" ({case['exc']})" if case.get("exc", "injected") != "injected" else "")
+        if not seq or seq[-1][0] != "E" or not out["same_obj"]:
+            return f"injected {name} @{out['fired_at']} did not reach the subscriber as on_error (the very exception object): subscriber saw {out['out'][-3:]}"
         if out["out"][-1][0] != out["fired_at"]:
             return f"injected {name} raised @{out['fired_at']} but on_error delivered @{out['out'][-1][0]}"
         if out["calls_after_fire"]:
@@ -598,6 +635,7 @@ def bucket(case, out):
         if out["fired"]:
             yield "fired:" + ("after-terminal" if out["term_before"] else "live")
             yield f"k:{case['k']}"
+            yield "exc:" + case.get("exc", "injected")
     else:
         yield "op:" + case["op"]
         o = out["out"]
